@@ -43,8 +43,23 @@ def run(prog, chk, tier):
     res = ex.run(fi)
     where = "%s:%d" % (fi.file, fi.lineno)
     rets = [e for e in res.events if e.kind == "return" and e.stack == (fi.qualname,)]
-    if res.dead or len(rets) != 1:
-        raise AnalysisError("crc8404B: expected exactly one return")
+    if res.dead or not rets:
+        raise AnalysisError("crc8404B: no return")
+    # the result may depend on (data, start_value) only: no module-level state is read or written
+    import ast as _ast
+
+    globs = [n for n in _ast.walk(fi.node) if isinstance(n, (_ast.Global, _ast.Nonlocal))]
+    chk.require(not globs, "C15.R3.no-state-between-calls", FN, "no global / nonlocal statement", where, "the checksum is a function of its arguments only; nothing is remembered between calls",
+                "the function keeps state between calls (%s): the result can depend on earlier calls" % ", ".join(_ast.unparse(g) for g in globs))
+    if len(rets) != 1:
+        # every return must be the loop register at loop exit; an early return of anything else is a different function
+        extra = [r for r in rets if unsnap(r.d["value"]).op != "loopexit"]
+        for r in extra[:3]:
+            chk.fail("C15.R3.return-is-final-register", FN, "return " + show(r.d["value"], 5), r.where, "a return path does not return the CRC register computed from (start value, data): %s" % show(r.d["value"], 5)[:80])
+        main = [r for r in rets if unsnap(r.d["value"]).op == "loopexit"]
+        if len(main) != 1:
+            return
+        rets = main
     ret: Term = rets[0].d["value"]
     # R3a: returned value is the loop-carried register at loop exit, nothing applied afterwards
     post_identity = True
